@@ -3,7 +3,7 @@ import ast
 import re
 
 from ..core import AnalysisError, anchor
-from .. import cfront, pyfront, layout
+from .. import cfront, normal, pyfront, layout
 from ..cfront import walk, strip, callee_name, call_args, render, line_of, is_assign, qtype
 from . import serial, c06
 
@@ -92,7 +92,7 @@ def rule_io_discipline(ctx):
     """R07.3: inside the per-snapshot loop of the index builder the result of every fread/fseek flows into a test
     that can set read_error / next_blob_is_corrupted."""
     tu = cfront.load_tu('simulationarchive.c')
-    fn = tu.func('reb_read_simulationarchive_from_stream_with_messages')
+    fn = normal.normalised_function(tu.func('reb_read_simulationarchive_from_stream_with_messages'), guards=False)   # while-with-counter == for
     loops = [x for x in walk(cfront.body(fn)) if x.get('kind') == 'ForStmt' and 'nblobsmax' in render(x['inner'][2])]
     anchor(len(loops) == 1, 'the per-snapshot loop of the index builder')
     loop = loops[0]
@@ -109,6 +109,22 @@ def rule_io_discipline(ctx):
             for x in walk(w['inner'][-1] if w.get('kind') == 'DoStmt' else w['inner'][0]):
                 if x.get('kind') == 'DeclRefExpr':
                     tested.add(x['referencedDecl']['name'])
+    # a flag that names a comparison (const int bad = (r3 != 1); if (bad) ...): testing the flag tests what it was computed from
+    changed = True
+    while changed:
+        changed = False
+        for d in walk(loop):
+            src = None
+            if d.get('kind') == 'VarDecl' and 'init' in d and d.get('name') in tested:
+                init = [c for c in d.get('inner', []) if c.get('kind') not in ('FullComment',)]
+                src = init[-1] if init else None
+            elif is_assign(d) and render(d['inner'][0]) in tested:
+                src = d['inner'][1]
+            if src is not None and not any(x.get('kind') == 'CallExpr' for x in walk(src)):
+                for x in walk(src):
+                    if x.get('kind') == 'DeclRefExpr' and x['referencedDecl']['name'] not in tested:
+                        tested.add(x['referencedDecl']['name'])
+                        changed = True
     # map call -> variable receiving its result
     assigned = {}
     for d in walk(loop):
